@@ -174,6 +174,9 @@ def run(ctx):
     A.install_cache()
     n_docs = 40 if tier == "quick" else 500
 
+    emit_n = [0]
+    PLAIN_MODEL = "EventType D0 K- pi+ pi+ pi-\nD0{K*(892)bar0{K-,pi+},rho(770)0{pi+,pi-}}   2 1 0   2 0 0\n"
+    CONJ_MODEL = "EventType Dbar0 K+ pi- pi- pi+\nDbar0{K*(892)0{K+,pi-},rho(770)0{pi-,pi+}}   2 1 0   2 0 0\n"
     emit_docs = [A.gen_emit_doc(rng, unsupported=True) for _ in range(n_docs)] + A.other_family_docs()
     for doc, ev in emit_docs:
         text = A.render_amp(doc)
@@ -185,6 +188,17 @@ def run(ctx):
                 res.violation(f"read_ampgen raised {type(e).__name__}: {e}", case, clause="conversion")
                 res.case()
                 continue
+            emit_n[0] += 1
+            if emit_n[0] % 3 == 0 and "GSpline" not in text:
+                # lines kept from one read, another model read by the same class (the conjugate event type, whose final state
+                # shares no charged kaon / pion sign pattern with most of the generated ones), then the kept lines emitted
+                # against their own event type: the permutations are those of the amplitude and ITS event type
+                try:
+                    cls.read_ampgen(text=CONJ_MODEL if "K+" not in ev else PLAIN_MODEL)
+                    case["history"] = ["read_ampgen(this text)", "read_ampgen(another model, same class)", "to_goofit(states[1:]) on the lines of this text"]
+                    res.count("emitted_after_another_read")
+                except Exception:
+                    pass
             fs_names = [n for n in ev[1:]]
             seen_order = []
             written = [st[1] for st in doc if st[0] == "line"]
